@@ -61,6 +61,7 @@ type rCfg struct {
 	SetupFail   bool   `json:"setup_fail"`
 	SetupMode   string `json:"setup_mode"`
 	SetupUs     int64  `json:"setup_us"`      // setup sleeps this long
+	CleanupUs   int64  `json:"cleanup_us"`    // every iteration cleanup sleeps this long
 	Wedge       bool   `json:"wedge"`         // negative replay of RunLifecycle's wedge: park a due progress tick until main is inside Summary
 	StopDelayUs int64  `json:"stop_delay_us"` // the hook parks the pool's stop goroutine this long at tp.stop.flagged
 	PoolOnly    bool   `json:"pool_only"`     // cooperative pool schedules: no Run.Do around the pool
@@ -375,7 +376,12 @@ func runOne(c *ctx, rc rCase, m *metrics.Metrics) rTrace {
 			if pan {
 				out = 1
 			}
-			t.Cleanup(func() { rec.add(rEv{K: "cleanup", A: id, B: h, C: rec.us()}) })
+			t.Cleanup(func() {
+				if rc.cfg.CleanupUs > 0 {
+					time.Sleep(time.Duration(rc.cfg.CleanupUs) * time.Microsecond)
+				}
+				rec.add(rEv{K: "cleanup", A: id, B: h, C: rec.us()})
+			})
 			defer func() {
 				live.Add(-1)
 				if rec.returned.Load() {
@@ -691,6 +697,38 @@ func buildCases(c *ctx) []rCase {
 		rc.cfg.Wedge = true
 		add(rc)
 	}
+	// the limit is reached while the last iterations hang: max-duration / cancel must still end the run
+	{
+		rc := constantCase("limit-then-blocked", "6/10ms", 10*ms, 2, 2, 300*ms, "none")
+		rc.cfg.Blockers = 2
+		rc.cfg.WaitUs = 200 * ms
+		add(rc)
+		rc2 := constantCase("limit-then-blocked-cancel", "6/10ms", 10*ms, 2, 2, 5000*ms, "none")
+		rc2.cfg.Blockers = 2
+		rc2.cfg.WaitUs = 200 * ms
+		rc2.cfg.CancelUs = 150 * ms
+		add(rc2)
+		ru := rCase{cfg: rCfg{Name: "limit-then-blocked-users", Mode: "users", Conc: 2, MaxIter: 2, MaxDurUs: 300 * ms, Blockers: 2, WaitUs: 200 * ms},
+			build: func(func(api.RateFunction) api.RateFunction) (*api.Trigger, error) {
+				return users.Rate().New(users.Rate().Flags)
+			}}
+		add(ru)
+	}
+	// slow cleanups: the handle is busy until its iteration's cleanups have run
+	for _, mode := range []string{"users", "constant"} {
+		if mode == "users" {
+			ru := rCase{cfg: rCfg{Name: "slow-cleanup-users", Mode: "users", Conc: 8, MaxDurUs: 250 * ms, CleanupUs: 3000},
+				build: func(func(api.RateFunction) api.RateFunction) (*api.Trigger, error) {
+					return users.Rate().New(users.Rate().Flags)
+				}, bodyMaxUs: 300}
+			add(ru)
+		} else {
+			rc := constantCase("slow-cleanup-constant", "30/10ms", 10*ms, 8, 0, 250*ms, "none")
+			rc.cfg.CleanupUs = 3000
+			rc.bodyMaxUs = 300
+			add(rc)
+		}
+	}
 	// staged / ramp / gaussian
 	add(rCase{cfg: rCfg{Name: "staged", Mode: "staged", RateMode: true, Conc: 6, MaxDurUs: 2000 * ms, IntervalUs: 20 * ms, Args: "0s:4,150ms:10,150ms:0"},
 		build: func(w func(api.RateFunction) api.RateFunction) (*api.Trigger, error) {
@@ -766,14 +804,16 @@ func buildCases(c *ctx) []rCase {
 		add(ru)
 	}
 	// --- consecutive runs on one metrics instance with static labels (C16, C01 metrics clause)
-	labelSets := []map[string]string{{}, {"a": "1", "a_b": "2", "ab": "3"}, {"zone": "z", "app": "zone", "b": "app"}, {"x": "y", "y": "x"}}
+	labelSets := []map[string]string{{}, {"a": "1", "a_b": "2", "ab": "3"}, {"l1": "v1", "l2": "v2", "l3": "v3", "l4": "v4", "l5": "v5"},
+		{"zone": "z", "app": "zone", "b": "app"}, {"x": "y", "y": "x"},
+		{"k01": "a", "k02": "b", "k03": "c", "k04": "d", "k05": "e", "k06": "f", "k07": "g", "k08": "h", "k09": "i", "k10": "j"}}
 	for k, ls := range labelSets {
-		if c.quick() && k > 1 {
+		if c.quick() && k > 2 {
 			break
 		}
-		rc := constantCase("metrics-runs", "7/10ms", 10*ms, 2, int64(9+k), 2000*ms, "none")
-		rc.bodyMaxUs = 8000
-		rc.failEvery = 3
+		rc := constantCase("metrics-runs", "40/10ms", 10*ms, 12, int64(150+k), 2000*ms, "none")
+		rc.bodyMaxUs = 300
+		rc.failEvery = 2
 		rc.labels = ls
 		rc.cfg.Labels = labelString(ls)
 		rc.cfg.MetricsRuns = 3
